@@ -125,7 +125,7 @@ func c17Path(r *rand.Rand, prefix string, t *c17Tree) string {
 func runC17(e *Env) {
 	// an application-wide path variable with the name StaticFiles uses for its own, stricter one
 	rux.SetGlobalVar("file", `[\w.-]+`)
-	e.Rule = "a sandbox tree (root with css/js/txt files, nested directories, a hidden file, files whose names end in the letters of an allowed extension without the dot; next to the root: secrets with and without allowed extensions, sibling directories rootx and root.bak, a same-named a.css, index.html pages) - every outside file carries a canary token; routers with StaticDir, StaticFiles (css|js, css), StaticFS(http.Dir), StaticFile under prefixes /s and /assets/v1 (also registered inside a group), the root spelled absolutely or relative to the working directory ('' and '.'), with/without UseEncodedPath and StrictLastSlash; request paths from a grammar of hostile segments (.., ., empty, %2e%2e, ..%2f, %2F, back-slashes, %00, NUL, trailing dots/blanks, case variants, absolute paths, over-long ../ chains, names of outside files), sent both as raw URL.Path (no client-side cleaning) and as escaped request targets parsed like a server. Oracle: no response body contains a canary or the name of an outside file; a 200 body that is not a directory listing equals a file under the root byte for byte; StaticFiles answers 200 only when the matched path ends in '.'+allowed extension; StaticFile returns only the configured file; no panic. Non-trivial: a path containing a dot-dot/encoded/absolute component or an outside name; distinct by (configuration, path). A second root is the dot-directory root/.pub (spelled absolutely or relatively) next to a decoy directory root/pub with same-named canary files; a global path variable named file is registered; segments with encoded ? and # behind forbidden file names; a file served by StaticFiles must itself carry an allowed extension. A third of the routers have a route cache of two entries and a second StaticFiles mount (/zz) with the other root; after the hostile requests: a file of the mount under test, two files of /zz, the first again. Every response must reach the writer as exactly one WriteHeader before any body byte. StaticFiles routers also have /legacy/{file}, re-dispatched internally to <prefix>/<file>.css (the extension filter applies to what is served). A fifth of the routers have pkg/handlers.PanicsHandler in front and an /export route that writes private bytes and panics; it is requested before every checked request. Relative dot-directory roots are mounted after a StaticDir of the similarly named decoy directory pub."
+	e.Rule = "a sandbox tree (root with css/js/txt files, nested directories, a hidden file, files whose names end in the letters of an allowed extension without the dot; next to the root: secrets with and without allowed extensions, sibling directories rootx and root.bak, a same-named a.css, index.html pages) - every outside file carries a canary token; routers with StaticDir, StaticFiles (css|js, css), StaticFS(http.Dir), StaticFile under prefixes /s and /assets/v1 (also registered inside a group), the root spelled absolutely or relative to the working directory ('' and '.'), with/without UseEncodedPath and StrictLastSlash; request paths from a grammar of hostile segments (.., ., empty, %2e%2e, ..%2f, %2F, back-slashes, %00, NUL, trailing dots/blanks, case variants, absolute paths, over-long ../ chains, names of outside files), sent both as raw URL.Path (no client-side cleaning) and as escaped request targets parsed like a server. Oracle: no response body contains a canary or the name of an outside file; a 200 body that is not a directory listing equals a file under the root byte for byte; StaticFiles answers 200 only when the matched path ends in '.'+allowed extension; StaticFile returns only the configured file; no panic. Non-trivial: a path containing a dot-dot/encoded/absolute component or an outside name; distinct by (configuration, path). A second root is the dot-directory root/.pub (spelled absolutely or relatively) next to a decoy directory root/pub with same-named canary files; a global path variable named file is registered; segments with encoded ? and # behind forbidden file names; a file served by StaticFiles must itself carry an allowed extension. A third of the routers have a route cache of two entries and a second StaticFiles mount (/zz) with the other root; after the hostile requests: a file of the mount under test, two files of /zz, the first again. Every response must reach the writer as exactly one WriteHeader before any body byte. StaticFiles routers also have /legacy/{file}, re-dispatched internally to <prefix>/<file>.css (the extension filter applies to what is served). A fifth of the routers have pkg/handlers.PanicsHandler in front and an /export route that writes private bytes and panics; it is requested before every checked request. Relative dot-directory roots are mounted after a StaticDir of the similarly named decoy directory pub. Cached StaticFiles routers finally get two very long spellings (a few hundred bytes of ./ in front of a.css, then of c.txt): the second is not served."
 	e.Assumptions = []string{
 		"symlinks inside the root pointing outside are not part of the statement's tree (http.Dir follows them by design)",
 		"directory listings (FileServer) are allowed as long as they list nothing outside the root",
@@ -417,6 +417,26 @@ func runC17(e *Env) {
 				if _, ok := insideByContent[first.Body.String()]; !ok {
 					t.Fail("served-bytes-not-a-root-file", "%s on %s(%s): 200 with a body that is not the content of any file under the root: %q", cur, kind, prefix, truncate(first.Body.String(), 120))
 				}
+			}
+		}
+		// with the cache: two very long spellings that agree in their first few hundred bytes; the first names a
+		// file with an allowed extension, the second one without
+		if cached && kind == "StaticFiles" {
+			long := prefix + "/" + strings.Repeat("./", 130+r.IntN(60))
+			okRec, _, p1 := Serve(router, NewReq("GET", long+"a.css"))
+			badRec, _, p2 := Serve(router, NewReq("GET", long+"c.txt"))
+			cur = fmt.Sprintf("GET %s/(./ x many)a.css, then GET %s/(the same)c.txt", prefix, prefix)
+			t.Count("requests.long_pair_with_a_common_head", 1)
+			if p1 || p2 {
+				t.Fail("servehttp-panics", "%s on %s(%s): panicked", cur, kind, prefix)
+				return
+			}
+			if okRec.Status() == 200 {
+				t.Count("requests.long_pair_first_served", 1)
+			}
+			if badRec.Status() == 200 {
+				t.Fail("extension-filter-bypassed", "%s on StaticFiles(%s, exts %q): the second request was answered 200 %q although its path does not end in an allowed extension", cur, prefix, exts, truncate(badRec.Body.String(), 80))
+				return
 			}
 		}
 	})
